@@ -37,6 +37,8 @@ var guardTable = []guardSpec{
 	{core.PkgGcsemu, "memBucket", "files", "gcsemu.memBucket.mu", gkBtree},
 	{core.PkgGcsutil, "TransientLockMap", "locks", "gcsutil.TransientLockMap.mu", gkMap},
 	{core.PkgGcsutil, "countedLock", "refcount", "gcsutil.TransientLockMap.mu", gkScalar},
+	{core.PkgGcsemu, "uploadData", "data", "gcsemu.uploadData.mu", gkScalar},
+	{core.PkgGcsemu, "uploadData", "Object", "gcsemu.uploadData.mu", gkScalar},
 }
 
 // Methods of the two ordered containers and the access mode they need.
@@ -229,26 +231,40 @@ func Guarded(p *core.Program) *guardedResult {
 						track(x, g)
 					}
 				case *ssa.FieldAddr:
-					for _, u := range core.Referrers(x) {
-						switch uu := u.(type) {
-						case *ssa.UnOp:
-							if uu.Op == token.MUL {
-								addAccess(uu, g, "load", mR)
-								if g.kind != gkScalar {
-									track(uu, g)
+					var visit func(addr ssa.Value)
+					visit = func(addr ssa.Value) {
+						for _, u := range core.Referrers(addr) {
+							switch uu := u.(type) {
+							case *ssa.UnOp:
+								if uu.Op == token.MUL {
+									addAccess(uu, g, "load", mR)
+									if g.kind != gkScalar {
+										track(uu, g)
+									}
 								}
+							case *ssa.Store:
+								if uu.Addr == addr {
+									addAccess(uu, g, "store", mW)
+								} else {
+									addEscape(uu, g, "address of guarded field stored")
+								}
+							case *ssa.FieldAddr:
+								// sub-field of a guarded struct field
+								if g.kind == gkScalar {
+									visit(uu)
+								} else {
+									addEscape(u, g, "address of guarded field escapes")
+								}
+							case ssa.CallInstruction:
+								// &guarded passed to a call: the callee reads/writes it while we hold the lock
+								addAccess(u, g, "pass-address", mW)
+							case *ssa.DebugRef:
+							default:
+								addEscape(u, g, "address of guarded field escapes")
 							}
-						case *ssa.Store:
-							if uu.Addr == x {
-								addAccess(uu, g, "store", mW)
-							} else {
-								addEscape(uu, g, "address of guarded field stored")
-							}
-						case *ssa.DebugRef:
-						default:
-							addEscape(u, g, "address of guarded field escapes")
 						}
 					}
+					visit(x)
 				}
 			}
 		}
